@@ -1,7 +1,7 @@
 (* C01 — point evaluation computes the function the expression denotes.
    Statements only. *)
 From Coq Require Import Reals List Arith.
-From LF Require Import Base.Opcode Base.Num Base.Arena Base.Sem Tree.Build Tree.BuildSem Eval.Deck Eval.Batch Eval.DeckSem Base.RInst Tree.Flatten Tree.FlattenSem Tree.Optimize Tree.OptimizePure Eval.EvalDenotes.
+From LF Require Import Base.Opcode Base.Num Base.Arena Base.Sem Tree.Build Tree.BuildSem Eval.Deck Eval.Batch Eval.DeckSem Eval.DeckSemReach Base.RInst Tree.Flatten Tree.FlattenSem Tree.Optimize Tree.OptimizePure Eval.EvalDenotes.
 
 (* Batch evaluation is slot-wise: position k of a batch of any size (any
    count_simd, any stale contents in the other positions) is the single-point
@@ -17,21 +17,39 @@ Print Assumptions C01_batch_pointwise.
 
 (* Tree::walk + Deck::Deck + leaves-to-root tape evaluation compute the
    denotation of the (flattened, optimised) DAG: for every number type, every
-   well-formed arena whose nodes up to the root are plain (constants, X/Y/Z
-   singletons, free variables, unary and binary operations), every point and
-   variable assignment.  Includes the correctness of the two-pass
+   well-formed arena whose nodes REACHABLE from the root are plain (constants, X/Y/Z
+   singletons, free variables, unary and binary operations) -- lower, unreachable ids may
+   hold anything (the invalid singleton, the remap / apply nodes of the source) --, every
+   point and variable assignment.  Includes the correctness of the two-pass
    reference-counted topological sort (Kahn's algorithm with an explicit stack). *)
 Theorem C01_deck_correct :
   forall (num : Type) (O : ops num) (osem : nat -> num -> num -> num -> num)
          (oracle_at : nat -> num -> num -> num -> num)
          (a : arena num) (root : nat) (vars : nat -> num) (x y z : num),
     arena_wf a -> base_ok O a -> root < length a ->
-    (forall m, m <= root -> pure_at a m) ->
+    (forall m, DeckSemReach.reach a root m -> pure_at a m) ->
     let d := mk_deck a root in
     tape_value O oracle_at d (d_tape d) (d_root d) vars x y z
     = val O osem a root {| ex := x; ey := y; ez := z; ev := vars |}.
-Proof. exact @deck_correct. Qed.
+Proof. exact @deck_correct_reach. Qed.
 Print Assumptions C01_deck_correct.
+
+(* the hypotheses are satisfiable above the five static nodes: x + y at id 5 *)
+Example C01_deck_correct_nonvacuous :
+  forall (num : Type) (O : ops num),
+    let a := init_arena O ++ (NBinary OP_ADD idX idY :: nil) in
+    arena_wf a /\ base_ok O a /\ 5 < length a /\ (forall m, DeckSemReach.reach a 5 m -> pure_at a m).
+Proof.
+  intros num O a. split; [|split; [|split]].
+  - unfold a, arena_wf, init_arena, idX, idY; simpl. repeat split; auto with arith.
+  - reflexivity.
+  - simpl; auto with arith.
+  - assert (H : forall m, DeckSemReach.reach a 5 m -> m = 5 \/ m = 0 \/ m = 1).
+    { intros m Hm; induction Hm as [|p c Hp IH Hc]; [left; reflexivity|].
+      destruct IH as [->|[->| ->]]; simpl in Hc; [|contradiction Hc|contradiction Hc].
+      destruct Hc as [<-|[<-|[]]]; auto. }
+    intros m Hm. destruct (H m Hm) as [->|[->| ->]]; unfold pure_at; simpl; auto.
+Qed.
 
 (* The whole pipeline of Deck(Tree) + ArrayEvaluator::value — construction-time
    simplification (C07), flatten, affine / commutative optimisation, walk, slot
